@@ -315,6 +315,10 @@ func partL(c *ev.Ctx) {
 		rec = func(prefix []int) {
 			r, res := runL(sc, prefix)
 			total++
+			if r.Hung != "" {
+				c.HarnessError("lock-level exploration: " + r.Hung)
+				return
+			}
 			if res.deadlock {
 				dl++
 				c.Violate("C18:deadlock", fmt.Sprintf("scenario %q deadlocks under schedule %v", sc.label, res.trace), map[string]any{"scenario": sc.label, "schedule": res.trace})
@@ -377,6 +381,97 @@ func partL(c *ev.Ctx) {
 	c.Set("lock_level_deadlocks", dl)
 }
 
+// ---- part D: restore against watch creation and writes at lock level (deadlock freedom) ---------------------------
+
+func partD(c *ev.Ctx) {
+	var total, deadlocks int64
+	build := func(prefix []int) *sched.Run {
+		be, err := inmem.NewBackend()
+		if err != nil {
+			panic(err)
+		}
+		st := be.VerifStore()
+		if _, err := be.WriteCAS(ctx, &pbresource.Resource{Id: rid("r1", "default", "u1"), Metadata: map[string]string{"d": "seed"}}); err != nil {
+			panic(err)
+		}
+		r := sched.New(prefix)
+		r.Go("restore", func() {
+			sched.Yield()
+			snap, err := st.Snapshot()
+			if err != nil {
+				panic(err)
+			}
+			rest, err := st.Restore()
+			if err != nil {
+				panic(err)
+			}
+			for x := snap.Next(); x != nil; x = snap.Next() {
+				if err := rest.Apply(x); err != nil {
+					panic(err)
+				}
+			}
+			rest.Commit()
+		})
+		r.Go("watch", func() {
+			sched.Yield()
+			w, err := st.WatchList(storage.UnversionedTypeFrom(resType), &pbresource.Tenancy{Partition: "default", Namespace: "default"}, "")
+			if err == nil {
+				w.Close()
+			}
+		})
+		r.Go("write", func() {
+			sched.Yield()
+			_, _ = be.WriteCAS(ctx, &pbresource.Resource{Id: rid("r2", "default", "u2"), Metadata: map[string]string{"d": "x"}})
+		})
+		return r
+	}
+	// deviation-bounded: every schedule with at most `bound` preemptions (a switch away from a thread that could go on)
+	bound := 2
+	if !c.Quick() {
+		bound = 3
+	}
+	var rec func(prefix []int, used int)
+	rec = func(prefix []int, used int) {
+		r := build(prefix)
+		r.Execute()
+		total++
+		if r.Hung != "" {
+			c.HarnessError("lock-level exploration: " + r.Hung)
+			return
+		}
+		if r.Deadlock {
+			deadlocks++
+			c.Violate("C18:deadlock:restore-vs-watch", fmt.Sprintf("restore commit, watch creation and a write deadlock under schedule %v (waiting: %v)", r.Trace, r.Waiting()),
+				map[string]any{"schedule": r.Trace, "choices": r.Choices})
+			if deadlocks > 3 {
+				return
+			}
+		}
+		for i := len(prefix); i < len(r.Alts); i++ {
+			cost := 0
+			if r.Preempt[i] {
+				cost = 1
+			}
+			if used+cost > bound {
+				continue
+			}
+			for alt := 1; alt < r.Alts[i]; alt++ {
+				if deadlocks > 3 || c.Expired() {
+					return
+				}
+				np := make([]int, i+1)
+				copy(np, r.Choices[:i])
+				np[i] = alt
+				rec(np, used+cost)
+			}
+		}
+	}
+	rec(nil, 0)
+	c.Set("restore_watch_write_preemption_bound", bound)
+	c.Set("restore_watch_write_schedules", total)
+	c.Set("restore_watch_write_deadlocks", deadlocks)
+}
+
 // ---- part W: watches, action level ------------------------------------------------------------------------------
 
 type wstep struct {
@@ -406,16 +501,17 @@ type commit struct {
 }
 
 type watcher struct {
-	spec     wspec
-	w        *inmem.Watch
-	opened   bool
-	closed   bool
-	snapDone bool
-	initial  map[string]string // key -> version expected in the initial listing
-	gotInit  map[string]string
-	after    int            // commits with seq > after are to be delivered live
-	pos      map[string]int // per resource: seq of the last delivered live event
-	log      []string
+	spec         wspec
+	w            *inmem.Watch
+	opened       bool
+	closed       bool
+	snapDone     bool
+	initial      map[string]string // key -> version expected in the initial listing
+	gotInit      map[string]string
+	after        int            // commits with seq > after are to be delivered live
+	pos          map[string]int // per resource: seq of the last delivered live event
+	log          []string
+	afterRestore bool
 }
 
 type wexec struct {
@@ -428,6 +524,9 @@ type wexec struct {
 	trace    []string
 	viol     [][2]string
 	restored bool
+
+	pending    *inmem.Restoration
+	pendingCur map[string]*pbresource.Resource
 }
 
 func (e *wexec) violate(sig, msg string) {
@@ -462,6 +561,40 @@ func (e *wexec) doStep(s wstep) {
 		}
 		delete(e.cur, k)
 		e.commits = append(e.commits, commit{key: k, deleted: true, version: c.Version, seq: len(e.commits) + 1})
+	case "restore-begin":
+		// the first half of a restore: the snapshot is loaded into a new database that is not live yet
+		snap, err := st.Snapshot()
+		if err != nil {
+			panic(err)
+		}
+		rest, err := st.Restore()
+		if err != nil {
+			panic(err)
+		}
+		for r := snap.Next(); r != nil; r = snap.Next() {
+			if err := rest.Apply(r); err != nil {
+				panic(err)
+			}
+		}
+		e.pending = rest
+		e.pendingCur = map[string]*pbresource.Resource{}
+		for k, v := range e.cur {
+			e.pendingCur[k] = v
+		}
+	case "restore-commit":
+		if e.pending == nil {
+			return
+		}
+		e.pending.Commit()
+		e.pending = nil
+		e.cur = e.pendingCur // writes that landed in between went to the database that was replaced
+		e.restored = true
+		e.pump()
+		for _, w := range e.ws {
+			if w.opened && !w.closed && !w.afterRestore {
+				e.violate("C18:watch-survives-restore", fmt.Sprintf("watch %s is still open after the store was restored", w.spec.label))
+			}
+		}
 	case "restore":
 		snap, err := st.Snapshot()
 		if err != nil {
@@ -502,6 +635,7 @@ func (e *wexec) open(w *watcher) {
 		return
 	}
 	w.w, w.opened = ww, true
+	w.afterRestore = e.restored
 	w.initial, w.gotInit, w.pos = map[string]string{}, map[string]string{}, map[string]int{}
 	for k, r := range e.cur {
 		if matches(w.spec.ns, k) {
@@ -532,7 +666,7 @@ func (e *wexec) pump() {
 				if errors.Is(err, storage.ErrWatchClosed) {
 					w.closed = true
 					e.trace = append(e.trace, w.spec.label+".closed")
-					if !e.restored {
+					if !e.restored || w.afterRestore {
 						e.violate("C18:watch-closed-without-restore", w.spec.label)
 					}
 					break
@@ -721,11 +855,12 @@ func wscenarios(quick bool) []*wscenario {
 		out = append(out, &wscenario{label: label, seed: seed, writers: writers, watchers: watchers})
 	}
 	progs := map[string][][]wstep{
-		"update r1 twice":                 {{wr("r1", "default", "a"), wr("r1", "default", "b")}},
-		"update r1, delete r1, re-create": {{wr("r1", "default", "a"), del("r1", "default"), wr("r1", "default", "c")}},
-		"two writers on r1 and r3":        {{wr("r1", "default", "a"), wr("r1", "default", "b")}, {wr("r3", "default", "x"), del("r3", "default")}},
-		"writers in two namespaces":       {{wr("r1", "default", "a")}, {wr("r2", "other", "b"), wr("r4", "other", "c")}},
-		"restore in the middle":           {{wr("r1", "default", "a"), restore, wr("r1", "default", "b")}},
+		"update r1 twice":                  {{wr("r1", "default", "a"), wr("r1", "default", "b")}},
+		"update r1, delete r1, re-create":  {{wr("r1", "default", "a"), del("r1", "default"), wr("r1", "default", "c")}},
+		"two writers on r1 and r3":         {{wr("r1", "default", "a"), wr("r1", "default", "b")}, {wr("r3", "default", "x"), del("r3", "default")}},
+		"writers in two namespaces":        {{wr("r1", "default", "a")}, {wr("r2", "other", "b"), wr("r4", "other", "c")}},
+		"restore in the middle":            {{wr("r1", "default", "a"), restore, wr("r1", "default", "b")}},
+		"write while a restore is loading": {{wr("r1", "default", "a"), wstep{kind: "restore-begin"}, wr("r5", "default", "lost"), wstep{kind: "restore-commit"}, wr("r1", "default", "b")}},
 	}
 	var names []string
 	for n := range progs {
@@ -808,6 +943,7 @@ func Run(c *ev.Ctx) {
 	vtime.ParkTimers(true)
 	defer vtime.ParkTimers(false)
 	partL(c)
+	partD(c)
 	partW(c)
 	partS(c)
 	var l, w int64
